@@ -81,6 +81,11 @@ theorem addr_noninterference (a a' : Bytes)
       simp only [Option.map_some, Option.some.injEq] at h
       simp [h]
 
+example : (splitHostPort (asc "bridge.example.net:443")).map (·.2)
+    = (splitHostPort (asc "[2001:db8::1]:443")).map (·.2) := by decide
+example : (splitHostPort (asc "no-port.example.net")).map (·.2) = (splitHostPort (asc "2001:db8::1")).map (·.2) := by
+  decide
+
 /-- the part that remains is exactly what follows the last colon, and contains no colon itself:
     the output is `[scrubbed]` or `[scrubbed]:` followed by that suffix -/
 theorem addr_output_shape (a : Bytes) :
@@ -108,6 +113,9 @@ theorem addr_host_irrelevant (h h' p : Bytes)
   simp only [Bool.false_eq_true, ↓reduceIte]
   rw [e1, e2]
   exact ⟨rfl, rfl⟩
+
+example : (COLON ∉ asc "bridge.example.net" ∧ LBR ∉ asc "bridge.example.net" ∧ RBR ∉ asc "bridge.example.net") ∧
+    (COLON ∉ asc "9001" ∧ LBR ∉ asc "9001" ∧ RBR ∉ asc "9001") := by decide
 
 /-- … and so is the host of a bracketed `[host]:port` (IPv6 literals: colons allowed inside) -/
 theorem addr_bracket_host_irrelevant (h h' p : Bytes)
